@@ -72,6 +72,40 @@ def gen_case(rng):
     return {"vars": vs, "bounds": bounds, "einsums": einsums}
 
 
+def gen_case_rank_sizes(rng):
+    """iteration space given by rank sizes (0 <= projection < size for every tensor rank) instead of per-variable bounds: the same
+    rank NAME may be indexed by different variables in different tensors, so a variable's bound is the tightest size among the ranks it indexes"""
+    nv = rng.randint(2, 4)
+    vs = VARS[:nv]
+    pool = {f"P{i}": rng.choice([2, 3, 4, 5, 6]) for i in range(4)}
+    tensors, used = [], set()
+    nt = rng.randint(2, 3)
+    for ti in range(nt):
+        nr = rng.randint(1, 3)
+        names = rng.sample(sorted(pool), nr)
+        acc = []
+        for _ in range(nr):
+            co = {v: 0 for v in vs}
+            v = rng.choice(vs)
+            co[v] = 1
+            used.add(v)
+            acc.append((co, 0))
+        tensors.append((f"T{ti}", ti == nt - 1, acc, names))
+    for v in vs:                      # every variable must index something
+        if v not in used:
+            n, o, acc, names = tensors[rng.randrange(nt)]
+            co = {x: 0 for x in vs}
+            co[v] = 1
+            free = [p for p in sorted(pool) if p not in names]
+            if not free:
+                return gen_case_rank_sizes(rng)
+            acc.append((co, 0))
+            names.append(rng.choice(free))
+    bounds = {v: min(pool[nm] for _, _, acc, names in tensors for (co, _), nm in zip(acc, names) if co[v]) for v in vs}
+    return {"vars": vs, "bounds": bounds, "rank_sizes": pool, "rank_names": {n: names for n, _, _, names in tensors},
+            "einsums": [{"name": "E0", "tensors": [(n, o, acc) for n, o, acc, _ in tensors]}]}
+
+
 def expr_str(co, c, vs):
     terms = [(f"{co[v]}*{v}" if co[v] != 1 else v) for v in vs if co[v]]
     if c or not terms:
@@ -82,10 +116,13 @@ def expr_str(co, c, vs):
 def build(case, af):
     from accelforge.frontend.workload import Workload
     es = []
+    rn = case.get("rank_names")
     for e in case["einsums"]:
         es.append({"name": e["name"], "tensor_accesses": [
-            {"name": n, "projection": {f"R{i}": expr_str(co, c, case["vars"]) for i, (co, c) in enumerate(acc)}, "output": o}
+            {"name": n, "projection": {(rn[n][i] if rn else f"R{i}"): expr_str(co, c, case["vars"]) for i, (co, c) in enumerate(acc)}, "output": o}
             for n, o, acc in e["tensors"]]})
+    if case.get("rank_sizes"):
+        return Workload(einsums=es, rank_sizes=dict(case["rank_sizes"]))
     return Workload(einsums=es, iteration_space_shape={v: f"0 <= {v} < {b}" for v, b in case["bounds"].items()})
 
 
@@ -113,7 +150,7 @@ def oracle(case):
                 for v in ev:
                     if co[v]:
                         halo = sum(co[y] * (case["bounds"][y] - 1) for y in ev if y != v) + c
-                        res["sh"][(e["name"], n, f"R{ri}", v)] = (co[v], halo)
+                        res["sh"][(e["name"], n, (case["rank_names"][n][ri] if case.get("rank_names") else f"R{ri}"), v)] = (co[v], halo)
     tensors = sorted({n for e in case["einsums"] for n, _, _ in e["tensors"]})
     for t in tensors:
         img = None
@@ -215,7 +252,8 @@ def run(ck):
     exprs, keys = [], []
     dist = {"einsums": {}, "nonbox_tensors": 0, "box_tensors": 0, "affine_ranks": 0, "const_ranks": 0, "shared_readers": 0}
     for _ in range(ck.n(250, 5000)):
-        case = gen_case(rng)
+        case = gen_case_rank_sizes(rng) if rng.random() < 0.25 else gen_case(rng)
+        dist["rank_sizes_mode"] = dist.get("rank_sizes_mode", 0) + bool(case.get("rank_sizes"))
         try:
             got = impl(case, af)
         except Exception as ex:  # noqa
@@ -257,7 +295,7 @@ def run(ck):
                 for ri, (co, c) in enumerate(acc):
                     for v in ev:
                         if co[v]:
-                            g_sh.append(got["sh"].get((e["name"], n, f"R{ri}", v)))
+                            g_sh.append(got["sh"].get((e["name"], n, (case["rank_names"][n][ri] if case.get("rank_names") else f"R{ri}"), v)))
         if list(nc) != g_nc or [list(x) for x in bl] != g_b or m_sz != g_sz or [tuple(x) for x in sh] != g_sh:
             mism.append({"case": case, "impl": {k: str(v) for k, v in got.items()}, "model": str(m)})
     ck.count("model_vs_impl_compared", len(keys))
